@@ -597,7 +597,7 @@ func (l *ShardedMap[K, V]) GetOrCreate(
 			},
 			create,
 		)
-		if err == nil && created {
+		if created { // NOTE the new value is stored even if f returns error
 			atomic.AddInt64(&l.length, 1)
 		}
 
